@@ -36,8 +36,8 @@ def run_gen(prop, tier, regex, regex_q=None, props=None, optsets=("full",), para
         c.assumptions.append("generated code reaches strings/sizes/Bool only through pkg/basictl primitives; their obligations (%s) are decided on buffers of symbolic length up to 2^57" % prim)
     for er in extra_runs:
         # further harness files on one generated schema (shared with another property's check)
-        c.run_schema(er["key"], [os.path.join(VERIF, "schemas", "f", er["schema"])], er.get("optname", "full"), er["props"], er["regex"], params=er["params_q"] if tier == "quick" else er["params_t"],
-                     libs=[LIB] + [os.path.join(VERIF, "harness", "gen", l) for l in er["libs"]], only=er.get("only"), wall=er.get("wall_q", "120s") if tier == "quick" else er.get("wall_t", "900s"),
+        c.run_schema(er["key"], [os.path.join(VERIF, "schemas", er.get("dir", "f"), er["schema"])], er.get("optname", "full"), er["props"], er["regex"], params=er["params_q"] if tier == "quick" else er["params_t"],
+                     libs=[LIB] + [os.path.join(VERIF, "harness", "gen", l) for l in er["libs"]], only=er.get("only"), skip=er.get("skip"), wall=er.get("wall_q", "120s") if tier == "quick" else er.get("wall_t", "900s"),
                      max_models=6, max_paths=400000)
         c.assumptions.append(er["text"])
     if pkg_harness:
@@ -86,6 +86,8 @@ SPEC["C09"] = dict(regex_q="^VerifC09(f|ft2|j|reset)_", hgen_extra=["-jmode"], p
 JSON_STRINGS = dict(key="f01", schema="f01_scalars.tl", props=["C34"], regex="^VerifC34(String|StringBytes)$", params_q={"jstrlen": 3}, params_t={"jstrlen": 4}, libs=["zz_verif_c34.go"], only=["True"],
                     wall_q="300s", wall_t="1800s",
                     text="string leaves beyond the value bound: the JSON string writers of pkg/basictl (string and []byte versions, which generated code calls for every string leaf and dictionary key) on EVERY byte string of <= jstrlen bytes: valid JSON, reads back identically through the generated Json2ReadString/Json2ReadStringBytes, both versions emit the same bytes (harness shared with C34)")
+SPEC["C08"]["extra_runs"] = [dict(key="g01", dir="g", schema="g01_zero_width.tl", props=["C08"], regex="^VerifC08", params_q=dict(BYTES_Q, slack8=8), params_t=dict(BYTES_T, slack8=16), libs=[], skip=PRELUDE, wall_q="60s", wall_t="600s",
+                                  text="extra schema schemas/g/g01_zero_width.tl: vectors and nat-sized tuples whose elements can be zero bytes wide (tuple int m with m = 0, %True) - the shape in which the minimum-element-size argument of the length sanity check matters")]
 SPEC["C03"]["extra_runs"] = [dict(key="f07", schema="f07_dicts.tl", props=["C03"], regex="^VerifC03x_", params_q={}, params_t={}, libs=["zz_verif_c03_f07.go"], only=["F07VecDict"], wall_q="60s", wall_t="300s",
                                   text="typed case f07.vecDict: dictionaries whose values own memory (vectors, nested dictionaries) with two entries, symbolic keys and elements (entries must not alias after reading)")]
 SPEC["C10"]["extra_runs"] = [dict(JSON_STRINGS, regex="^VerifC34StringBytes$")]
